@@ -802,8 +802,6 @@ class Dict(dict, base.Symbolic, pg_typing.CustomTyping):
     value_spec = self._value_spec
     items = dict(self.sym_items())
     self._value_spec = None
-    for value in self.sym_values():
-      self._detach(value)
     super().clear()
     self._invalidate_content_caches()
 
@@ -816,6 +814,9 @@ class Dict(dict, base.Symbolic, pg_typing.CustomTyping):
         super().update(items)
         self._value_spec = value_spec
         raise
+    # The removed values are detached only once the clear has succeeded.
+    for value in items.values():
+      self._detach(value)
 
   def setdefault(self, key: Union[str, int], default: Any = None) -> Any:
     """Sets default as the value to key if not present."""
